@@ -839,4 +839,84 @@ theorem tx_both (hOwn : OwnW c w addrs) {blk : BlockMeta} (hCV : CredVal c P T b
 
 end tx
 
+-- ------------------------------------------------------------------ one block record
+
+section blk
+variable {w : Wid} {addrs : List Addr} {P : CredKey → Addr → Prop} {T : TxId × BlockMeta → BlkId × Nat → Prop}
+  {N : TxId × BlockMeta → Prop} {G S : AMap.T Nat (BlkId × List TxId)} {c : Ctx}
+
+/-- the ghost's block record lists `txs`; the real store's lists `txs.filter p` or is gone (then `p` fails on all):
+    a transaction failing `p` has no tx record in the real store -/
+theorem blockAt_rel (hOwn : OwnW c w addrs) {cur : Nat} {bh : BlkId} {txs : List TxId}
+    (hCV : CredVal c P T ⟨cur, bh⟩) {ga sa ga' sa' : RbAcc}
+    (h : WR w addrs P T N G S ga.s sa.s) (hb : BalR w ga.bals sa.bals)
+    (hG : AMap.get G cur = some (bh, txs)) (p : TxId → Bool) (hp : ∀ id, p id = false → N (id, ⟨cur, bh⟩))
+    (hS : AMap.get S cur = some (bh, txs.filter p) ∨ (AMap.get S cur = none ∧ ∀ id ∈ txs, p id = false))
+    (hg : rollbackBlockAt c ga cur = .ok ga') (hs : rollbackBlockAt c sa cur = .ok sa') :
+    WR w addrs P T N G S ga'.s sa'.s ∧ BalR w ga'.bals sa'.bals := by
+  unfold rollbackBlockAt at hg hs
+  rw [h.rs.2.2.2.2.1, hG] at hg
+  rw [h.rs.2.2.2.2.2] at hs
+  dsimp only at hg
+  rcases hS with hS | ⟨hS, hall⟩
+  · rw [hS] at hs
+    dsimp only at hs
+    rw [← List.filter_reverse] at hs
+    exact foldlM_rel_filter (fun (a a' : RbAcc) => WR w addrs P T N G S a.s a'.s ∧ BalR w a.bals a'.bals)
+      (fun (a : RbAcc) id => do
+        let (s', bals', rem) ← rollbackTx c a.s a.bals ⟨cur, bh⟩ id
+        pure { a with s := s', bals := bals', cb := a.cb ++ rem })
+      (fun (a : RbAcc) id => do
+        let (s', bals', rem) ← rollbackTx c a.s a.bals ⟨cur, bh⟩ id
+        pure { a with s := s', bals := bals', cb := a.cb ++ rem }) p
+      txs.reverse { ga with heights := ga.heights ++ [cur] } { sa with heights := sa.heights ++ [cur] } ga' sa'
+      (by
+        intro a a' id b' c' _ _ hR hf hf'
+        obtain ⟨r, q1, q2⟩ := M_bind_ok hf
+        obtain ⟨r', k1, k2⟩ := M_bind_ok hf'
+        cases q2; cases k2
+        exact tx_both hOwn hCV hR.1 hR.2 q1 k1)
+      (by
+        intro a a' id b' _ hpid hR hf
+        obtain ⟨r, q1, q2⟩ := M_bind_ok hf
+        cases q2
+        exact tx_g hOwn hCV hR.1 hR.2 (hp id hpid) q1)
+      ⟨h, hb⟩ hg hs
+  · rw [hS] at hs
+    dsimp only at hs
+    cases hs
+    exact foldlM_preserves (fun (a : RbAcc) => WR w addrs P T N G S a.s sa.s ∧ BalR w a.bals sa.bals)
+      (fun (a : RbAcc) id => do
+        let (s', bals', rem) ← rollbackTx c a.s a.bals ⟨cur, bh⟩ id
+        pure { a with s := s', bals := bals', cb := a.cb ++ rem }) txs.reverse
+      (by
+        intro a id a' hid hR hf
+        obtain ⟨r, q1, q2⟩ := M_bind_ok hf
+        cases q2
+        exact tx_g hOwn hCV hR.1 hR.2 (hp id (hall id (List.mem_reverse.1 hid))) q1)
+      (b := { ga with heights := ga.heights ++ [cur] }) ⟨h, hb⟩ hg
+
+/-- the heights Rollback collects: the block records it met -/
+theorem blockAt_heights {a a' : RbAcc} {cur : Nat} (h : rollbackBlockAt c a cur = .ok a') :
+    a'.heights = a.heights ++ (if (AMap.get a.s.blocks cur).isSome then [cur] else []) := by
+  unfold rollbackBlockAt at h
+  cases hb : AMap.get a.s.blocks cur with
+  | none => rw [hb] at h; cases h; simp
+  | some r =>
+    obtain ⟨bh, txs⟩ := r
+    rw [hb] at h
+    dsimp only at h
+    have := foldlM_preserves (fun (x : RbAcc) => x.heights = a.heights ++ [cur])
+      (fun (a : RbAcc) id => do
+        let (s', bals', rem) ← rollbackTx c a.s a.bals ⟨cur, bh⟩ id
+        pure { a with s := s', bals := bals', cb := a.cb ++ rem }) txs.reverse
+      (by
+        intro x id x' _ hx hf
+        obtain ⟨r, _, q2⟩ := M_bind_ok hf
+        cases q2
+        exact hx) (b := { a with heights := a.heights ++ [cur] }) rfl h
+    rw [this]; simp
+
+end blk
+
 end MW.Lemmas.RemoveSimW
